@@ -37,6 +37,11 @@ type HTTPCase struct {
 	// websocket only: Websocket.InitFunc answers with a context that is NOT derived from the request's (a
 	// server that builds its per-connection context itself, e.g. after authenticating the init payload)
 	DetachedInit bool `json:"detachedInit,omitempty"`
+	// websocket only: "graphql-ws" (the legacy subprotocol: start / data / stop / connection_terminate) instead of
+	// graphql-transport-ws. clientEnds then also knows "terminate" (connection_terminate while the operation
+	// runs) and, for both subprotocols, "dupid" (a second operation under the id that is still running: the server
+	// closes the connection itself, 4409)
+	Subproto string `json:"subproto,omitempty"`
 	DeliveryTimeoutMs int  `json:"deliveryTimeoutMs,omitempty"`
 	FullBody          bool `json:"fullBody,omitempty"` // report the body whatever its size
 	// C12: report what the transport was handed and the exact bytes it wrote. Record: every response is
@@ -250,7 +255,12 @@ func RunWS(es graphql.ExecutableSchema, c HTTPCase) HTTPResult {
 	done := make(chan struct{})
 	go func() {
 		defer close(done)
-		d := websocket.Dialer{Subprotocols: []string{"graphql-transport-ws"}, HandshakeTimeout: to}
+		sub := "graphql-transport-ws"
+		startT, nextT := "subscribe", "next"
+		if c.Subproto == "graphql-ws" {
+			sub, startT, nextT = "graphql-ws", "start", "data"
+		}
+		d := websocket.Dialer{Subprotocols: []string{sub}, HandshakeTimeout: to}
 		conn, resp, err := d.Dial("ws"+strings.TrimPrefix(ts.URL, "http")+"/", nil)
 		if err != nil {
 			res.Body = "dial: " + err.Error()
@@ -265,8 +275,14 @@ func RunWS(es graphql.ExecutableSchema, c HTTPCase) HTTPResult {
 			res.Body = fmt.Sprintf("no ack: %v %v", ack, err)
 			return
 		}
-		conn.WriteJSON(map[string]any{"id": "1", "type": "subscribe",
+		conn.WriteJSON(map[string]any{"id": "1", "type": startT,
 			"payload": map[string]any{"query": c.Query, "variables": c.Variables, "operationName": c.OperationName}})
+		if c.ClientEnds == "dupid" && c.AfterNext == 0 {
+			conn.WriteJSON(map[string]any{"id": "1", "type": startT, "payload": map[string]any{"query": c.Query, "variables": c.Variables}})
+		}
+		if c.ClientEnds == "terminate" && c.AfterNext == 0 {
+			conn.WriteJSON(map[string]any{"type": "connection_terminate"})
+		}
 		var out []string
 		nexts := 0
 		for {
@@ -299,11 +315,27 @@ func RunWS(es graphql.ExecutableSchema, c HTTPCase) HTTPResult {
 			if typ == "complete" {
 				break
 			}
-			if typ == "next" {
+			if typ == "ka" {
+				out = out[:len(out)-1]
+				continue
+			}
+			if typ == nextT {
 				nexts++
-				if c.ClientEnds != "" && nexts >= c.AfterNext {
+				if (c.ClientEnds == "dupid" || c.ClientEnds == "terminate") && c.AfterNext > 0 && nexts == c.AfterNext {
+					if c.ClientEnds == "dupid" {
+						conn.WriteJSON(map[string]any{"id": "1", "type": startT, "payload": map[string]any{"query": c.Query, "variables": c.Variables}})
+					} else {
+						conn.WriteJSON(map[string]any{"type": "connection_terminate"})
+					}
+					continue // the server ends the connection itself; keep reading until it does
+				}
+				if c.ClientEnds != "" && c.ClientEnds != "dupid" && c.ClientEnds != "terminate" && nexts >= c.AfterNext {
 					if c.ClientEnds == "complete" {
-						conn.WriteJSON(map[string]any{"id": "1", "type": "complete"})
+						stopT := "complete"
+						if c.Subproto == "graphql-ws" {
+							stopT = "stop"
+						}
+						conn.WriteJSON(map[string]any{"id": "1", "type": stopT})
 						// the server may still have sent frames; an orderly close follows
 						conn.WriteMessage(websocket.CloseMessage, websocket.FormatCloseMessage(websocket.CloseNormalClosure, ""))
 					} else {
